@@ -334,7 +334,11 @@ pub fn run(ctx: &Ctx) -> (Stats, Report) {
     single.sort();
     single.dedup();
     for kind in KINDS {
-        let vals = pools::pool(kind, seed, if ctx.thorough { 8000 } else { 1000 });
+        let mut vals = pools::pool(kind, seed, if ctx.thorough { 8000 } else { 1000 });
+        if matches!(kind, Kind::Ts | Kind::Ora) {
+            // binary-boundary times of day (from midnight and back from the next midnight) on boundary dates
+            vals.extend(pools::ts_binary_time_instants().into_iter().map(|x| Val::new(kind, if kind == Kind::Ora { x.div_euclid(US_PER_SEC) * US_PER_SEC } else { x })));
+        }
         let sref = &single;
         let vref = &vals;
         let s = par_sweep(vals.len() as u64, 16, |range, st| {
